@@ -100,7 +100,8 @@ CLAIMS = {
         "rotated by rational rotations) together with the exact Miehe split (sigma+, psi+) and checks the partition relations on the model; the states are replayed MIXED inside elements through "
         "Calc_Sigma_e_pg / Calc_psi_e_pg for all 14 splits x regularisations x isotropic / transversely isotropic materials (finite, sigma+ + sigma- = C:eps, psi+ + psi- = psi, exact values for Miehe/Bourdin), "
         "then float neighbours of every lattice state (random rotations, symmetric noise 0..1e-4) are compared with a split built on numpy.linalg.eigh. Splits.tla also proves positive homogeneity of the exact split on the lattice (k = 1/2, 3) and names the strain magnitudes (1, 1e-3, 1e-6, 1e-9) at which every state and its neighbours are replayed - no absolute strain scale may hide in the code. spec/PhaseFieldHist.tla enumerates load / unload programs; each "
-        "is run on a real PhaseField simulation per irreversibility solver, reduced to counts per saved step and validated by Trace_PhaseFieldHist.tla (history never decreases; damage never decreases for damage-based solvers; no load, no damage; 0 <= d <= 1).",
+        "is run on a real PhaseField simulation per irreversibility solver, reduced to counts per saved step and validated by Trace_PhaseFieldHist.tla (history never decreases; damage never decreases for damage-based solvers; no load, no damage; 0 <= d <= 1); the programs also choose whether results are read between Solve and SaveIter and the element type (QUAD4 / TRI3). "
+        "spec/Staggered.tla models the staggered driver of PhaseField.Solve (LastPair, Bounded, FlagHonest, FirstHit; two rejected designs) and Trace_Staggered.tla validates every recorded call of Solve() (sub-solves wrapped from the harness) event by event, inferring the criterion from the continuation; three corrupted records must be rejected.",
         note="Trusted: TLC and Rat.tla arithmetic, numpy.linalg.eigh for the float neighbourhoods (1e-3 relative there, 1e-9 on the exact lattice), a 3x3 QUAD4 simulation as the history bed. Exact split values exist for Miehe and Bourdin; other splits are decided for finiteness and the partition relations.",
         technique="TLC-enumerated exact strain lattice and load programs replayed into the implementation (model-based test generation) + recorded step traces validated by a TLA+ trace spec",
         design_ref="DESIGN.md 6/C17",
@@ -110,7 +111,9 @@ CLAIMS = {
         "(field, component | norm | all | von Mises at each Gauss point then element mean). The harness sets u, v, a (and the damage) to mutually distinguishable random arrays - not an equilibrium state - "
         "evaluates every name of Results_Available() in element and nodal form, abstracts each returned array to the tokens it equals (candidates are built independently from the fields, B, C and K), "
         "and TLC judges every row against the definition (ok / mismatch / unmodelled). Derived relations are replayed: Wdef = 1/2 u'Ku on arbitrary states, node<->element conversion of constants, "
-        "reactions on a fully constrained edge balance the applied loads (4 element types).",
+        "reactions on a fully constrained edge balance the applied loads (4 element types). Every request is also judged for its FORM: Stored / NComp / SizeClass of Results.tla require one entry per node (nodal form) or per element (element form) "
+        "on meshes chosen so that every size class for which the size of an array does not tell where it is stored (one element, Nn = Ne, Nn a multiple of Ne, with components) is witnessed; beam generalised strains, internal forces and stresses, InElastic, a mixed TRI3 + QUAD4 mesh and the "
+        "BalanceCases of the module (Elastic / PhaseField, 2-D / 3-D, coarse / fine, damaged band: reactions per direction sum to minus the applied resultant) are part of the table; a binding self-test feeds TLC three corrupted records.",
         note="Trusted: TLC, token matching at rtol 1e-9, the independent candidate construction (stress = C B u in Kelvin-Mandel components). Names the module does not define are listed as unmodelled in the evidence (not violations).",
         technique="result-name table recorded from the implementation and validated against a TLA+ definition table (trace validation, exhaustive over advertised names)",
         design_ref="DESIGN.md 6/C16",
@@ -159,7 +162,7 @@ CLAIMS = {
         "entered several times, even split of point loads, unit diagonal on orphan dofs, reduced solve by Cramer. TLC checks the definition's own consistency (prescribed "
         "sums, equilibrium of free rows). Every TLC behaviour is replayed through add_dirichlet/add_neumann (constants, arrays, functions of position) and Solve() with "
         "scipy, cg, bicg, gmres, lgmres, bounded least squares, the Lagrange-multiplier route and the Newton-incremental route; the returned vector and "
-        "Bc_vector_Dirichlet() are compared with TLC's rationals. spec/Newton.tla models the Newton-incremental driver itself (test read before the update on |R|, |R|/|R_1|, |du|; first hit; refusal after maxIter) on a one-dof problem with an inexact tangent of contraction q; TLC checks that a returning solve has a residual below the bound of the criterion that fired and that no solve fails although a criterion was met, and every terminal state (432) is run through the real Solve(): status, and - as evidence - iteration count, iterate, recorded norms, assemblies and the state left by a refused solve. spec/Connections.tla states which unknowns a fixed / hinged connection of two beam end nodes ties and which it leaves free (2-D, 3-D with every set of named axes); each state is solved on two members clamped at their far ends and loaded at the joint: tied unknowns are equal across the joint, and the dofs of a free unknown satisfy their own assembled equation (no moment transmitted).",
+        "Bc_vector_Dirichlet() are compared with TLC's rationals. spec/SolverOptions.tla models the PETSc option store (StoredValid, RefusalIsNoOp, Targeted; two rejected designs): its whole decision table and TLC-simulated call sequences are run through the real setter and read back after every call. spec/Newton.tla models the Newton-incremental driver itself (test read before the update on |R|, |R|/|R_1|, |du|; first hit; refusal after maxIter) on a one-dof problem with an inexact tangent of contraction q; TLC checks that a returning solve has a residual below the bound of the criterion that fired and that no solve fails although a criterion was met, and every terminal state (432) is run through the real Solve(): status, and - as evidence - iteration count, iterate, recorded norms, assemblies and the state left by a refused solve. spec/Connections.tla states which unknowns a fixed / hinged connection of two beam end nodes ties and which it leaves free (2-D, 3-D with every set of named axes); each state is solved on two members clamped at their far ends and loaded at the joint: tied unknowns are equal across the joint, and the dofs of a free unknown satisfy their own assembled equation (no moment transmitted).",
         note="Trusted: TLC, float-vs-rational comparison (1e-10 direct, 1e-4 Krylov). Lagrange route only when no dof is constrained twice (bordered system singular otherwise); "
         "empty reduced systems are not sent to lsq_linear/lgmres. K is supplied by a _Simu subclass. PETSc/pypardiso are not installed.",
         technique="TLA+ exact-rational model of constraint bookkeeping and reduced solve, TLC exhaustive; behaviours replayed into Solve() with every back end",
@@ -181,7 +184,7 @@ CLAIMS = {
         text="spec/Lifecycle.tla models one action per public call (parameter/density/damping setters, Translate/Rotate/Symmetry, coordinate setter, mesh "
         "replacement, BC clearing/adding incl. Lagrange conditions, scheme switch, Get_K_C_M_F, Solve, Save_Iter, Set_Iter, ...) with the implementation's own "
         "bookkeeping (needUpdate flag, element caches, sparsity-map memo, observer lists). TLC checks NoStale / MapsCurrent / Observing exhaustively on bounded "
-        "configurations (1 and 2 simulations sharing model and mesh) and rejects five deliberately defective variants. TLC simulation-mode behaviours are replayed "
+        "configurations (1 and 2 simulations sharing model and mesh; with one simulation the life cycle continues after a Save / Load_Simu round trip on the loaded object and its model) and rejects seven deliberately defective variants. TLC simulation-mode behaviours are replayed "
         "on real Elastic, Thermal and harness simulations: after every action the abstraction of the concrete state (flag, iteration count, current mesh, store) is "
         "compared with the specification state, and at every observing action K, C, M, F, the solution and named results are compared with a fresh simulation "
         "built independently in the final configuration. Adapters: Elastic 2-D / 3-D (scalar and per-element parameters), Thermal, Beam (welded 2-D frame), WeakForms, HyperElastic, PhaseField and a harness _Simu subclass; fixed scenarios for what the generated behaviours cannot express (Beam mesh and cross-section replacement, PhaseField history and InElastic internal variables across a mesh replacement). Every replay section reports how many solves were compared and how many configurations were singular on both sides; a section comparing none is a machinery error. "
